@@ -11,6 +11,7 @@ from __future__ import annotations
 import ast
 import re
 
+from ..cfg import CFG
 from ..core import AnalysisError, call_name, calls_in, const_str, kwarg, last_attr, names_in, src
 
 EXPLANATION = (
@@ -19,7 +20,7 @@ EXPLANATION = (
     "(error files, output files, task args, task kwargs) uses the variable whose only definitions are the -1 initialiser and get_job_array_index(); "
     "the specs are indexed only under args.array_job; C32.3 reunite key: preexisting_batch_jobs is keyed only by get_hash_from_job_name(...) or lines of "
     "the eval-hash file and consulted only with job.eval_hash; get_batch_job_name separates with '-' and the parse regex captures the last "
-    "dash-free component (regex AST); C32.4 per-job scratch paths are functions of job.eval_hash; results/errors are read from the paths written."
+    "dash-free component (regex AST); C32.4 per-job scratch paths are functions of job.eval_hash; results/errors are read from the paths written. C32.5 in oneshot_command every path that reaches the call of the task function with an output path set passes output_file.remove(): executors judge success by the presence of the output file, so a stale one must not survive a re-execution that raises."
 )
 
 SCR = "redun/executors/scratch.py"
@@ -150,3 +151,31 @@ def run(ctx):
     pe = sm.func("parse_job_error")
     ok = "get_job_scratch_file(scratch_prefix, job, SCRATCH_ERROR)" in src(pe)
     r4.check(ok, f"{sm.rel}:parse_job_error", "errors are not read from the job's own error path", sm.rel, pe.lineno)
+
+    # ---- C32.5 no stale output survives a re-execution -------------------------------------
+    # Executors judge a finished remote job by the presence of its output file (docker.iter_job_status, batch status override), so when oneshot
+    # is about to run the task function, any previous output at the same eval_hash path must have been removed on every path.
+    r5 = ctx.rule("C32.5", "oneshot removes a previous output file on every path that re-executes the task", floor=1)
+    cm5 = repo.mod("redun/cli.py")
+    one = cm5.func("RedunClient.oneshot_command")
+    c5 = CFG(one)
+    runs = [c for c in calls_in(one) if src(c.func) in ("task.func", "task") and any(isinstance(a, ast.Starred) for a in c.args)]
+    if not runs:
+        raise AnalysisError("oneshot_command: call of the task function not found", "RedunClient.oneshot_command")
+    removes = [c5.node_of(c) for c in calls_in(one) if last_attr(c) == "remove" and isinstance(c.func, ast.Attribute) and "output" in src(c.func.value)]
+    # the output file is only written when an output path was given: paths on which `output_path` is falsy need no removal
+    no_output = []
+    for t in c5.nodes:
+        if t.kind == "test" and isinstance(t.ast, ast.expr) and src(t.ast) == "output_path":
+            no_output += c5.edge_nodes(t, "F")
+    for rc in runs:
+        node = c5.node_of(rc)
+        ok = bool(removes) and c5.must_pass(c5.entry, set(removes) | set(no_output), targets=[node])
+        r5.check(
+            ok,
+            f"{cm5.rel}:RedunClient.oneshot_command:remove-before-run",
+            f"`{src(rc)[:50]}` (line {rc.lineno}) can be reached with an output path set but without removing the previous output file: if this execution raises, the error "
+            "file is written next to the stale output, and executors that test for the output file (docker.iter_job_status, the batch failure override) report the old result as success",
+            cm5.rel,
+            rc.lineno,
+        )
